@@ -31,7 +31,8 @@ var verifMethods = []string{"GET", "POST", "PUT"}
 // C12: every HTTP handler, any method, any decodable body, arbitrary query
 // values, peers unreachable or not: no panic, locks released.
 func verifH_C12_handlers_never_panic() {
-	s, _ := verifHandlerServer()
+	s, gcaPriv := verifHandlerServer()
+	signed := verifBool("body_signed_by_gca") // bodies with arbitrary signature bytes, or really signed by the GCA
 	method := verifMethods[verifCase("method", 0, 2)]
 	h := verifCase("handler", 0, 6)
 	query := map[string]string{
@@ -44,6 +45,9 @@ func verifH_C12_handlers_never_panic() {
 	case 0:
 		var body glow.EquipmentAuthorization
 		verifHavoc(&body, "body")
+		if signed {
+			body.Signature = glow.Sign(body.SigningBytes(), gcaPriv)
+		}
 		s.AuthorizeEquipmentHandler(w, verifRequest(method, query, &body))
 	case 1:
 		var body GCARegistration
@@ -52,6 +56,9 @@ func verifH_C12_handlers_never_panic() {
 	case 2:
 		var body AuthorizedServer
 		verifHavoc(&body, "body")
+		if signed {
+			body.GCAAuthorization = glow.Sign(body.SigningBytes(), gcaPriv)
+		}
 		s.AuthorizedServersHandler(w, verifRequest(method, query, &body))
 	case 3:
 		if method == "POST" && verifTier(0, 1) == 0 {
